@@ -235,7 +235,7 @@ def doc_rule(rule, variant, bad: bool):
             return lambda: rtf.RTFBody(new_page=True, **extra)
         return lambda: rtf.RTFBody(new_page=True, page_by=["a"])
     if rule == "df_and_figure":
-        p = _png(os.path.join(work, "c19fig.png"))
+        p = _png(os.path.join(work, f"c19fig_{os.getpid()}.png"))
         if bad:
             return lambda: rtf.RTFDocument(df=df if variant % 2 == 0 else [df], rtf_figure=rtf.RTFFigure(figures=p),
                                            **({} if variant % 2 == 0 else {"rtf_body": [rtf.RTFBody()]}))
@@ -261,11 +261,11 @@ def doc_rule(rule, variant, bad: bool):
             return lambda: rtf.RTFDocument(df=[df] * n_df, rtf_body=[rtf.RTFBody() for _ in range(n_df)], rtf_column_header=mk(n_h))
         return lambda: rtf.RTFDocument(df=[df] * n_df, rtf_body=[rtf.RTFBody() for _ in range(n_df)], rtf_column_header=mk(n_df))
     if rule == "figure_missing_file":
-        p = _png(os.path.join(work, "c19ok.png"))
+        p = _png(os.path.join(work, f"c19ok_{os.getpid()}.png"))
         missing = os.path.join(work, "does", "not", "exist.png")
         if variant % 8 >= 4:
             # history: the file existed and was used by an earlier RTFFigure (and encode), then it was removed
-            gone = os.path.join(work, f"c19gone{variant % 4}.png")
+            gone = os.path.join(work, f"c19gone{variant % 4}_{os.getpid()}.png")      # per worker process: the shards share the work directory
             val = [gone, [gone], [p, gone], [p, gone, p]][variant % 4]
 
             def build():
@@ -293,7 +293,7 @@ def constructor(case, use_bad):
     value = make_value(case, use_bad)
     if cls == "RTFFigure":
         work = os.environ.get("VERIF_WORK") or os.environ.get("TMPDIR") or "."
-        p = _png(os.path.join(work, "c19f.png"))
+        p = _png(os.path.join(work, f"c19f_{os.getpid()}.png"))
         return lambda: rtf.RTFFigure(figures=p, **{case["field"]: value})
     kw = {case["field"]: value}
     if cls in ("RTFFootnote", "RTFSource", "RTFTitle", "RTFSubline", "RTFPageFooter"):
